@@ -474,11 +474,13 @@ func scenarios(c *engine.Ctx) []scenario {
 func run(c *engine.Ctx, r *engine.Report) {
 	r.Need("explored", "solo:credentials", "solo:authenticated", "solo:rejected")
 	w := newWorld(c.Seed)
-	bound := 2
-	if c.Thorough() {
-		bound = 3
-	}
 	for si, sc := range scenarios(c) {
+		// thorough: three preemptions for pairs on the three representative
+		// option shapes, two elsewhere (triples, remaining shapes)
+		bound := 2
+		if c.Thorough() && len(sc.Clients) == 2 && ((sc.OptLen == 0 && sc.Spare == 0) || (sc.OptLen == 2 && sc.Spare == 4) || (sc.OptLen == 5 && sc.Spare == 0)) {
+			bound = 3
+		}
 		if !c.Mine(si) {
 			continue
 		}
@@ -570,7 +572,7 @@ func init() {
 	engine.Register(&engine.CheckDef{
 		ID:    "C15",
 		Level: "exploration",
-		Rule: "one real InterceptingListener over real (unix-socket) connections; 2 (thorough also 3) handler threads each running one Accept for clients of kinds {fetch by an authorized node, fetch by an unknown node, token enrollment carrying its own state, authentication with its own client state and extra protocols, authentication by an unregistered key}, for application option slices of length 0/1/2 with spare capacity 0/1/4 and of every length 3..9 with exact capacity; every schedule with at most 2 (thorough 3) preemptions over the scheduling points {every storage call, entry/exit of the fetch and certificate functions, base Accept}; oracle: each connection's (server result, reported state and protocols, client-side answer, created record's state) equals its outcome when handled alone; " +
+		Rule: "one real InterceptingListener over real (unix-socket) connections; 2 (thorough also 3) handler threads each running one Accept for clients of kinds {fetch by an authorized node, fetch by an unknown node, token enrollment carrying its own state, authentication with its own client state and extra protocols, authentication by an unregistered key}, for application option slices of length 0/1/2 with spare capacity 0/1/4 and of every length 3..9 with exact capacity; every schedule with at most 2 preemptions (thorough: 3 for pairs on three representative option shapes) over the scheduling points {every storage call, entry/exit of the fetch and certificate functions, base Accept}; oracle: each connection's (server result, reported state and protocols, client-side answer, created record's state) equals its outcome when handled alone; " +
 			"evaluations = schedules executed; distinct_nontrivial = scenarios explored",
 		Assumptions: []string{"code between two scheduling points of one handshake runs atomically w.r.t. the other handshakes (scheduling points are where shared state can be touched: storage and the shared option slice around the function calls); unsynchronised accesses inside those blocks are the -race companion's job", "clients are storage-independent (distinct keys and tokens), so the sequential outcome of each is order-independent"},
 		Shards:      func(c *engine.Ctx) int { return 16 },
